@@ -496,6 +496,8 @@ func c12Lru(s c12Spec, res *lib.Result) {
 		}
 		var trace []string
 		prevSize := int64(-1)
+		prevPrev := int64(-2)
+		var shared *bytes.Reader
 		for round := 0; round < 3; round++ { // Reset onto further files: stale storage must not leak
 			size := int64(r.Range(0, 5))*chunk + int64(r.Range(-1, 1))
 			if size < 0 {
@@ -506,7 +508,19 @@ func c12Lru(s c12Spec, res *lib.Result) {
 			}
 			prevSize = size
 			data := lib.RandomBytes(size, r.Uint64())
-			if err := lf.Reset(bytes.NewReader(data)); err != nil {
+			var rs io.ReadSeeker = bytes.NewReader(data)
+			if size == prevPrev && round > 0 && shared != nil {
+				// the SAME reader object as in the round before, now over other content of the same length (a
+				// bytes.Reader that was Reset, a file rewritten in place, a pool handing its cached reader back)
+				shared.Reset(data)
+				rs = shared
+				res.Add("lrufile_resets_onto_the_same_reader_object_with_new_content", 1)
+			} else {
+				shared = bytes.NewReader(data)
+				rs = shared
+			}
+			prevPrev = size
+			if err := lf.Reset(rs); err != nil {
 				res.Violate("lrufile-reset-error", err.Error())
 				return
 			}
